@@ -3,6 +3,8 @@
 // Contracts for package dir, checked by /verif/govc (comment-only file).
 package dir
 
+//@ specfunc isDot(name nfstypes.Filename3) = len(name) == 1 && name[0] == 46
+//@ specfunc isDotDot(name nfstypes.Filename3) = len(name) == 2 && name[0] == 46 && name[1] == 46
 //@ specfunc dirOK(dip *inode.Inode, op *fstxn.FsTxn) = locked(dip) && inodeInv(dip) && opOpen(op) && dirtyInv()
 //@ specfunc dirMods(dip *inode.Inode) = othersClean(dip)
 
@@ -115,8 +117,10 @@ package dir
 //@   ensures [Fn5-notdir] dip.Kind != 2 ==> result0 == 0 @C02
 //@   assumes [Fn5-lookup] dip.Kind == 2 ==> result0 == dnames[dip.Inum][name]
 //@   assumes [I3-validinum] result0 < 32768 && (result0 != 0 ==> result1 & 127 == 0 && result1 < dip.Size && liveinum[result0])
-//@   assumes [I6-selfonlydot] result0 != 0 && result0 == dip.Inum ==> len(name) == 1 && name[0] == 46
+//@   assumes [I6-selfonlydot] result0 != 0 && result0 == dip.Inum ==> isDot(name)
+//@   assumes [I6-rootonlydots] result0 == 1 ==> isDot(name) || isDotDot(name)
 //@   ensures dirModsOK(dip, op) && dip.Size == old(dip.Size) && (dip.Kind == 2 ==> dip.Dcache != nil)
+//@   ensures [dcache-id] (old(dip.Dcache) != nil ==> dip.Dcache == old(dip.Dcache)) && (dip.Dcache == old(dip.Dcache) || fresh(dip.Dcache))
 
 //@ spec RemNameDir
 //@   props C13 C04 C10 C11 C09
@@ -129,6 +133,7 @@ package dir
 //@   ensures [E7-size] dip.Size == old(dip.Size) @C13 @C09
 //@   ensures [Fn5-found] result1 ==> dip.Kind == 2 && old(dnames)[dip.Inum][name] != 0 @C02
 //@   ensures dirModsOK(dip, op) && (dip.Kind == 2 ==> dip.Dcache != nil)
+//@   ensures [dcache-id] (old(dip.Dcache) != nil ==> dip.Dcache == old(dip.Dcache)) && (dip.Dcache == old(dip.Dcache) || fresh(dip.Dcache))
 
 // Q1 (C19): names of up to 112 bytes are accepted, longer ones refused with no effect.
 //@ spec AddName
@@ -138,6 +143,7 @@ package dir
 //@   preserves [allocInv] allocInv() @C15 @C04
 //@   allocates buf.Buf, marshal.Enc, marshal.Dec, cell:uint64, []uint8, dir.dirEnt, dcache.Dcache, map[string]dcache.Dentry, nfstypes.Entry3
 //@   modifies dnames, dip.Size, dip.Dcache, dcache.Dcache.Lastoff, dip.blks[*], dirtyinum, wroteinum, abits, op.Atxn.allocBnums, []uint64@alloctxn.AllocTxn.allocBnums, []uint8@buf.Buf.Data, buf.Buf.dirty, nfstypes.Entry3, cell:*nfstypes.Entry3, map[string]dcache.Dentry, emitted, emitany, emitlast
+//@   ensures [frame-dcache] (forall d *dcache.Dcache :: d != dip.Dcache ==> d.Lastoff == old(d.Lastoff)) && (old(dip.Dcache) != nil ==> dip.Dcache == old(dip.Dcache)) && (dip.Dcache == old(dip.Dcache) || fresh(dip.Dcache))
 //@   ensures [ibits-same] abits[theIalloc] == old(abits)[theIalloc] @C05
 //@   ghostexit dnames = ite(result, store(dnames, dip.Inum, store(dnames[dip.Inum], name, inum)), dnames)
 //@   ensures [Q1-refuse] (len(name) > 112 || dip.Kind != 2) ==> !result && dip.Size == old(dip.Size) && dirtyinum == old(dirtyinum) @C19 @C09
@@ -151,6 +157,7 @@ package dir
 //@   preserves [allocInv] allocInv() @C15 @C04
 //@   allocates buf.Buf, marshal.Enc, marshal.Dec, cell:uint64, []uint8, dir.dirEnt, dcache.Dcache, map[string]dcache.Dentry, nfstypes.Entry3
 //@   modifies dnames, dip.Size, dip.Dcache, dcache.Dcache.Lastoff, dip.blks[*], dirtyinum, wroteinum, abits, op.Atxn.allocBnums, []uint64@alloctxn.AllocTxn.allocBnums, []uint8@buf.Buf.Data, buf.Buf.dirty, nfstypes.Entry3, cell:*nfstypes.Entry3, map[string]dcache.Dentry, emitted, emitany, emitlast
+//@   ensures [frame-dcache] (forall d *dcache.Dcache :: d != dip.Dcache ==> d.Lastoff == old(d.Lastoff)) && (old(dip.Dcache) != nil ==> dip.Dcache == old(dip.Dcache)) && (dip.Dcache == old(dip.Dcache) || fresh(dip.Dcache))
 //@   ensures [ibits-same] abits[theIalloc] == old(abits)[theIalloc] @C05
 //@   ghostexit dnames = ite(result, store(dnames, dip.Inum, store(dnames[dip.Inum], name, 0)), dnames)
 //@   panic_assumed "RemName"
@@ -164,6 +171,7 @@ package dir
 //@   preserves [allocInv] allocInv() @C15 @C04
 //@   allocates buf.Buf, marshal.Enc, marshal.Dec, cell:uint64, []uint8, dir.dirEnt, dcache.Dcache, map[string]dcache.Dentry, nfstypes.Entry3
 //@   modifies dnames, dip.Size, dip.Dcache, dcache.Dcache.Lastoff, dip.blks[*], dirtyinum, wroteinum, abits, op.Atxn.allocBnums, []uint64@alloctxn.AllocTxn.allocBnums, []uint8@buf.Buf.Data, buf.Buf.dirty, nfstypes.Entry3, cell:*nfstypes.Entry3, map[string]dcache.Dentry, emitted, emitany, emitlast
+//@   ensures [frame-dcache] (forall d *dcache.Dcache :: d != dip.Dcache ==> d.Lastoff == old(d.Lastoff)) && (old(dip.Dcache) != nil ==> dip.Dcache == old(dip.Dcache)) && (dip.Dcache == old(dip.Dcache) || fresh(dip.Dcache))
 //@   ensures [ibits-same] abits[theIalloc] == old(abits)[theIalloc] @C05
 //@   ensures [I6-dots] result ==> dnames[dip.Inum]["."] == dip.Inum && dnames[dip.Inum][".."] == parent @C04
 //@   ensures dirModsOK(dip, op)
@@ -174,6 +182,7 @@ package dir
 //@   preserves [allocInv] allocInv() @C15 @C04
 //@   allocates buf.Buf, marshal.Enc, marshal.Dec, cell:uint64, []uint8, dir.dirEnt, dcache.Dcache, map[string]dcache.Dentry, nfstypes.Entry3
 //@   modifies dnames, dip.Size, dip.Dcache, dcache.Dcache.Lastoff, dip.blks[*], dirtyinum, wroteinum, abits, op.Atxn.allocBnums, []uint64@alloctxn.AllocTxn.allocBnums, []uint8@buf.Buf.Data, buf.Buf.dirty, nfstypes.Entry3, cell:*nfstypes.Entry3, map[string]dcache.Dentry, emitted, emitany, emitlast
+//@   ensures [frame-dcache] (forall d *dcache.Dcache :: d != dip.Dcache ==> d.Lastoff == old(d.Lastoff)) && (old(dip.Dcache) != nil ==> dip.Dcache == old(dip.Dcache)) && (dip.Dcache == old(dip.Dcache) || fresh(dip.Dcache))
 //@   ensures [ibits-same] abits[theIalloc] == old(abits)[theIalloc] @C05
 //@   ensures [I6-rootdots] result ==> dnames[dip.Inum]["."] == dip.Inum && dnames[dip.Inum][".."] == dip.Inum @C04
 //@   ensures dirModsOK(dip, op)
